@@ -553,6 +553,24 @@ def sibling_windows(rng, count):
     return out
 
 
+def outside_hypothesis(rng, count):
+    """C03: trees outside the hypothesis of the property (a never-ending regular job with
+    no timeout above it, a handler that never returns under shutdown_timeout=None, a
+    window filled by never-ending jobs): the real run may hang, and must hang exactly
+    when the specification is stuck in the same way"""
+    out = []
+    prof = dict(p_flat=0.5, max_flat=5, max_nodes=7, max_dur=2, p_never=0.3, p_exc=0.2, p_crit=0.2,
+                p_forever=0.2, tmos=[-1, -1, -1, 2], wins=[0, 0, 1, 2], stmos=[1, -1, -1],
+                sdurs=[0, 0, 1, -1])
+    tries = 0
+    while len(out) < count and tries < 200 * count:
+        tries += 1
+        sc = random_scenario(rng, 0, prof)
+        if not admissible(sc["cfg"]):
+            out.append(sc)
+    return out
+
+
 def failed_nested_successors(rng, count):
     """C03/C10/C01: a non-critical nested scheduler fails (a critical job inside raises,
     or its own timeout fires) and jobs of the parent are waiting behind it"""
@@ -718,7 +736,7 @@ STRUCTURED = {
     "C01": [(joins, 0.25), (small_perms, 0.1), (nested_gap, 0.15), (between_waits, 0.08)],
     "C02": [(tie_groups, 0.3), (simultaneous_failures, 0.15)],
     "C03": [(window_failures, 0.25), (deadlines, 0.1), (window_ties, 0.12), (failed_nested_successors, 0.1),
-            (cancel_cliques, 0.08), (empty_stages, 0.06)],
+            (cancel_cliques, 0.08), (empty_stages, 0.06), (outside_hypothesis, 0.04)],
     "C04": [(critical_instants, 0.15), (deadlines, 0.2), (crit_chains, 0.15), (simultaneous_failures, 0.15)],
     "C05": [(critical_instants, 0.35), (simultaneous_failures, 0.15), (nested_abort_ties, 0.1), (between_waits, 0.06)],
     "C06": [(window_failures, 0.3), (simultaneous_failures, 0.1)],
@@ -771,6 +789,10 @@ def scenarios(prop, count, seed):
         # now and then the caller cancels the whole run from outside
         if rng.random() < {"C11": 0.15, "C13": 0.08, "C05": 0.05}.get(prop, 0.03):
             sc["cfg"]["ucancel"] = rng.choice([0, 1, 1, 2, 3])
+            # ... and then shuts the tree down explicitly, as the documentation asks
+            sc["cfg"]["xshut"] = rng.random() < 0.7 and admissible(sc["cfg"])
+        elif rng.random() < 0.15 and admissible(sc["cfg"]):
+            sc["cfg"]["xshut"] = True
         # now and then shutdown() has been called on the tree before the run
         if rng.random() < {"C04": 0.08, "C13": 0.08, "C08": 0.05, "C11": 0.05}.get(prop, 0.02):
             sc["cfg"]["preshut"] = True
